@@ -9,9 +9,11 @@ import (
 	"io"
 	"math/rand"
 	"os"
+	"os/signal"
 	"sort"
 	"strings"
 	"sync"
+	"syscall"
 	"time"
 
 	"github.com/la5nta/wl2k-go/fbb"
@@ -218,6 +220,14 @@ func MainC01(args []string) int {
 		sc.Seg = []string{"all", "rand"}[i%2]
 		scs = append(scs, sc)
 	}
+	// a message of more than 999999 bytes compressed, in either role
+	for _, master := range []string{"A", "B"} {
+		sc := GenScenario(rng, 0, 2, 1, map[string]int{"+": 1}, true)
+		sc.Master = master
+		sc.Msgs["A"][0].Size = "huge"
+		sc.Seg = "all"
+		scs = append(scs, sc)
+	}
 	for i, sc := range scs {
 		sc.ID = i + 1
 	}
@@ -345,17 +355,33 @@ func MainC02(args []string) int {
 	workers := fs.Int("workers", 8, "parallel sequences")
 	seqs := fs.Int("seqs", 60, "random multi-fault sequences")
 	tmp := fs.String("tmp", os.TempDir(), "scratch for directory mailboxes")
+	fspartial := fs.Bool("fspartial", false, "only the sequences in which a store fails in the middle of writing the file (file size limit; one session at a time)")
 	fs.Parse(args)
 	os.MkdirAll(*tmp, 0755)
 	TmpBase = *tmp
 	rng := rand.New(rand.NewSource(rec.Seed()))
 	cores := c02Cores(rng)
+	if *fspartial {
+		// the file size limit is the process's: nothing else may write files meanwhile
+		*workers = 1
+		signal.Ignore(syscall.SIGXFSZ)
+	}
 	type item struct {
 		base   *Scenario
 		faults []*Fault
 	}
 	var items []item
 	for ci, core := range cores {
+		if *fspartial {
+			if core.Handler == "dir" {
+				for _, side := range []string{"A", "B"} {
+					for i := 1; i <= len(core.Msgs[peerOf(side)]); i++ {
+						items = append(items, item{core, []*Fault{{Kind: "fspartial", Dir: side, At: i}}})
+					}
+				}
+			}
+			continue
+		}
 		// clean transcript lengths
 		_, res := runClean(cloneScenario(core))
 		if res.TimedOut || res.Ret["A"] != "nil" || res.Ret["B"] != "nil" {
